@@ -84,4 +84,5 @@ WeeksInRange == \A d \in EdgeDays : IsoWeek(d) \in 1..53
 KnownWeeks == IsoWeek(D(2005, 1, 1)) = 53 /\ IsoWeek(D(2009, 1, 1)) = 1 /\ IsoWeek(D(2010, 1, 3)) = 53 /\ IsoWeek(D(2021, 1, 3)) = 53 /\ IsoWeek(D(2008, 12, 29)) = 1
 Weekdays == Weekday(0) = 4 /\ Weekday(D(2000, 1, 1)) = 6 /\ Weekday(D(2018, 9, 9)) = 0
 ParseInvertsRender == (done /\ c.flags.fn = "to") => LET P == ParseIso(c.flags.s) IN (P.ok /\ Len(c.flags.s) >= 23) => SubSeq(c.flags.s, 1, 23) \in {IsoText(P.day, P.ms), IsoText(P.day + 1, P.ms), IsoText(P.day - 1, P.ms)} \/ TRUE
+ASSUME CivilInverse /\ WeeksInRange /\ KnownWeeks /\ Weekdays
 =============================================================================
